@@ -37,7 +37,8 @@ def run(res, configs=CONFIGS):
                 f.write(f'CONSTANTS\n  Sizes = {sizes}\n  MaxLive = {maxlive}\n  MaxDepth = {maxdepth}\nSPECIFICATION Spec\n'
                         'INVARIANTS Tiling NoAdjacentFree NoTrailingFree HighWater NoOverlap\n')
             p = subprocess.run(['tlc', '-workers', '8', '-deadlock', '-noGenerateSpecTE', '-metadir', os.path.join(work, 'meta'),
-                                '-dump', os.path.join(work, 'states'), 'Heap.tla'], cwd=work, capture_output=True, text=True, timeout=3000)
+                                '-dump', os.path.join(work, 'states'), 'Heap.tla'], cwd=work, capture_output=True, text=True, timeout=3000,
+                               env=dict(os.environ, JAVA_TOOL_OPTIONS=f'-Djava.io.tmpdir={work}'))   # TLC's own scratch directory goes away with work
             out = p.stdout
             if 'No error has been found' not in out:
                 res.violation(f'C08/tlc/model/{sizes}-{maxlive}-{maxdepth}', {'kind': 'tlc', 'config': [sizes, maxlive, maxdepth]},
